@@ -163,7 +163,7 @@ contract(A + "Action.__exit__", props=["C03", "C02", "C04", "C05", "C07"],
                    ("body-restored-context", "CTX[me] == box(self)"),
                    ("not-already-current-when-entered", "typed(self._parent_token, 'Token').tok_old != box(self)"),
                    ("previous-ok", "implies(typed(self._parent_token, 'Token').tok_old != UNSET and typed(self._parent_token, 'Token').tok_old is not None, "
-                                   "pos_ok(typed(typed(self._parent_token, 'Token').tok_old, 'Action')))"),
+                                   "rep_ok(typed(typed(self._parent_token, 'Token').tok_old, 'Action')))"),
                    ("previous-typed", "typed(self._parent_token, 'Token').tok_old == UNSET or typed(self._parent_token, 'Token').tok_old is None or isinst(typed(self._parent_token, 'Token').tok_old, 'Action', True)"),
                    ("not-finished", "not self._finished")],
          modifies=LOGGING_FRAME + ["self._finished", "self._parent_token", "#CTX[me]", "field:tok_used", "dict(self._successFields)"],
@@ -238,7 +238,7 @@ contract(A + "start_action", props=["C02", "C04", "C05", "C01", "C07", "C13"], t
          after={"Action._start#0": [("R", "R"), ("E", "write_ev(self._logger, fields, ite(self._serializers is None, None, typed(self._serializers, '_ActionSerializers').start))")],
                 "startTask#0": [("R", "R"), ("E", "E")]},
          requires=[("current-ok", "cur_ok()"),
-                   ("current-rep-ok", "implies(curact() is not None, rep_ok(typed(curact(), 'Action')))")],
+ ],
          modifies=LOGGING_FRAME + ["dict(fields)", "field:$uuid_str"],
          ensures=START_POST + [
              ("no-current-action-starts-a-task", "implies(curact() is None, seq(result._task_level._level) == [])", ["C04"]),
@@ -252,7 +252,6 @@ contract(A + "log_message", props=["C02", "C04", "C05", "C01", "C07", "C08"],
          ghosts={"R": "seqe", "E": "ev", "DOFF": "seqe"},
          after={"Action.log#0": [("R", "R"), ("E", "write_ev(L, fields, SER)"), ("DOFF", "DOFF")]},
          requires=[("current-ok", "cur_ok()"),
-                   ("current-rep-ok", "implies(curact() is not None, rep_ok(typed(curact(), 'Action')))"),
                    ("no-field-named-self", "'self' not in fields")],
          modifies=LOGGING_FRAME + ["dict(fields)", "field:$uuid_str"],
          ensures=[("one-write-then-only-reports", "LOG == old(LOG) + [E] + R and all_reports(R) and E.tag == 'write'", ["C01", "C02"]),
@@ -262,6 +261,7 @@ contract(A + "log_message", props=["C02", "C04", "C05", "C01", "C07", "C08"],
                   ("in-current-action", "implies(curact() is not None, E.g == old(uu(typed(curact(), 'Action'))) and "
                    "seq(E.f) == old(lvl(typed(curact(), 'Action'))) + [old(pos(typed(curact(), 'Action'))) + 1])", ["C04", "C02", "C05"]),
                   ("own-task-when-no-current-action", "implies(curact() is None, seq(E.f) == [1] and is_str(E.g))", ["C04", "C02"]),
+                  ("current-action-advances", "implies(curact() is not None, pos(typed(curact(), 'Action')) >= old(pos(typed(curact(), 'Action'))) + 1)", ["C02"]),
                   ("positions-elsewhere", "only_changed('_last_child', curact())", ["C02"]),
                   ("context-untouched", "CTX == old(CTX)", ["C04", "C05"]),
                   ("current-ok", "cur_ok()")])
